@@ -35,7 +35,21 @@ const ALPHA_FEATS: [&str; 9] = ["lab", "cor", "dor", "phr", "place", "long", "ov
 pub(crate) fn gen(r: &mut Rng) -> Case {
     let word = rand_word(r, &WordCfg { max_sylls: 5, ..WordCfg::default() });
     let mut c = Case { family: String::new(), rule: String::new(), word, a: String::new(), b: String::new(), x: String::new() };
-    match r.below(10) {
+    match r.below(11) {
+        10 => {
+            // two neighbouring segments that agree in a feature (`[αF] [αF]=1 > [±H] 1`): the first is changed, the second is written back
+            // as captured. After a pair that does not agree the scan goes on one segment further, with nothing remembered of the attempt.
+            let (f, h) = (r.below(26), r.below(26));
+            let hp = r.chance(1, 2);
+            let segs: Vec<String> = CONS.iter().chain(VOWS.iter()).map(|x| x.to_string()).collect();
+            let n = r.range(3, 6);
+            let mut w = String::new(); let mut last = String::new();
+            for i in 0..n { let x = r.pick(&segs).clone(); if x == last { continue } if i > 0 && r.chance(1, 4) { w.push('.') } w += &x; last = x; }
+            c.word = w;
+            c.family = "alpha-agreement".into();
+            c.a = crate::c04::F[f].0.to_string(); c.b = crate::c04::F[h].0.to_string(); c.x = if hp { "+".into() } else { "-".into() };
+            c.rule = format!("[A{}] [A{}]=1 > [{}{}] 1", c.a, c.a, c.x, c.b);
+        }
         0 | 1 | 2 => {
             let k = r.range(1, 3);
             let mut ins = Vec::new(); let mut outs = Vec::new(); let mut any_syll = false; let mut any_seg = false;
@@ -120,6 +134,29 @@ fn model_segment_ctx(c: &Case, w: &Word) -> Option<(Word, usize, usize)> {
     Some((out, fired, rejected))
 }
 
+fn model_alpha_agreement(c: &Case, w: &Word) -> Option<(Word, usize, usize)> {
+    use crate::c04::{get, m_set, to_m, F};
+    let fi = F.iter().position(|x| x.0 == c.a)?; let hi = F.iter().position(|x| x.0 == c.b)?; let pos = c.x == "+";
+    let adj = |o: &Word| o.syllables.iter().any(|s| (1..s.segments.len()).any(|j| s.segments[j] == s.segments[j - 1]));
+    if adj(w) { return None }
+    let mut out = w.clone();
+    let flat: Vec<(usize, usize)> = w.syllables.iter().enumerate().flat_map(|(si, s)| (0..s.segments.len()).map(move |gi| (si, gi))).collect();
+    let (mut fired, mut rejected) = (0, 0); let mut i = 0;
+    while i + 1 < flat.len() {
+        let (a, b) = (out.syllables[flat[i].0].segments[flat[i].1], out.syllables[flat[i + 1].0].segments[flat[i + 1].1]);
+        let (va, vb) = (get(&to_m(&a), F[fi].1), get(&to_m(&b), F[fi].1));
+        let agree = match (va, vb) { (Some(x), Some(y)) => (x & F[fi].2 != 0) == (y & F[fi].2 != 0), _ => false };
+        if agree {
+            // the change to the first segment, through the real setter of the exported Segment (C18 checks that against its equations)
+            let mut m = to_m(&a); m_set(&mut m, F[hi].1, F[hi].2, pos);
+            let nk = crate::c18::FEATS[hi].0; let mut t = a; t.set_feat(nk, crate::c18::FEATS[hi].1, pos);
+            if to_m(&t) != m { return None }
+            out.syllables[flat[i].0].segments[flat[i].1] = t; fired += 1; i += 2;
+            if adj(&out) { return None }
+        } else { rejected += 1; i += 1 }
+    }
+    Some((out, fired, rejected))
+}
 fn model_syllable_ctx(w: &Word) -> (Word, usize, usize) {
     let mut out = w.clone(); let (mut f, mut rj) = (0, 0);
     for i in 0..out.syllables.len() {
@@ -164,7 +201,7 @@ pub fn judge(rep: &mut Report, c: &Case) {
         let mrule = format!("{head} > {}{tail}", vec![marker; k].join(" "));
         if let Ok(mr) = compile1(&mrule) { if let Applied::Ok(g2) = apply(&mr, &w) { if g2 != w { rep.nontrivial(hash64(&(&c.rule, &c.word))); if rep.samples.len() < 6 { let v = c.json(); rep.sample(|| v); } } } }
     } else {
-        let m = match fam { "var-context:segment" => model_segment_ctx(c, &w), "var-context:syllable" => Some(model_syllable_ctx(&w)), _ => Some(model_haplology(&w)) };
+        let m = match fam { "alpha-agreement" => model_alpha_agreement(c, &w), "var-context:segment" => model_segment_ctx(c, &w), "var-context:syllable" => Some(model_syllable_ctx(&w)), _ => Some(model_haplology(&w)) };
         let Some((exp, fired, rejected)) = m else { rep.obs("discarded_equal_neighbours", 1); return };
         if got != exp { rep.violation(fam.to_string(), || json!({"case": c.json(), "expected": sw::dump_json(&exp), "observed": sw::dump_json(&got)})); return }
         if fired > 0 && rejected > 0 { rep.nontrivial(hash64(&(&c.rule, &c.word))); if rep.samples.len() < 9 { let v = json!({"rule": c.rule, "word": c.word, "result": sw::render(&got)}); rep.sample(|| v); } }
